@@ -193,5 +193,5 @@ pub static PRED: EngineDef = EngineDef {
     shrink: shrink_erased::<Pred>,
     summarize: summarize_erased::<Pred>,
     describe: pred_describe,
-    runs: |_| (150_000, 900_000),
+    runs: |_| (250_000, 900_000),
 };
